@@ -76,6 +76,7 @@ int __real_eventfd(unsigned, int);
 int __real_signalfd(int, const sigset_t *, int);
 int __real_open(const char *, int, ...);
 pid_t __real_getpid(void);
+uint32_t __real_evutil_weakrand_seed_(void *, uint32_t);
 }
 
 namespace vk {
@@ -97,6 +98,7 @@ std::function<ConnectDecision(const sockaddr *, socklen_t)> connect_policy;
 std::function<void(int, bool, const char *, size_t)> tap_stream;
 std::function<void(int, bool, const char *, size_t, const sockaddr *)> tap_dgram;
 std::function<void(int, bool, size_t)> io_ledger;
+std::function<void(int, int, int, int)> accept_hook;
 
 void set_fault(Site s, int permille) { fault_pm[s] = permille; }
 bool unusual(Site s) {
@@ -691,6 +693,8 @@ int ep_id(Endpoint *e) { return e->id; }
 uint64_t ep_bytes_received(Endpoint *e) { return e->in ? e->in->consumed : 0; }
 void *&ep_user(Endpoint *e) { return e->user; }
 bool ep_open(Endpoint *e) { return !e->closed; }
+int ep_local_port(Endpoint *e) { return e->bound ? get_port((sockaddr *)&e->local) : -1; }
+int ep_state(Endpoint *e) { if (e->closed) return 3; if (e->state == ST_CONNECTED) return 1; if (e->state == ST_FAILED) return 2; return 0; }
 
 int sim_socketpair(int fds[2]) {
 	Sock *a = new_sock(false, AF_UNIX, SOCK_STREAM), *b = new_sock(false, AF_UNIX, SOCK_STREAM);
@@ -794,6 +798,13 @@ int __wrap_nanosleep(const struct timespec *req, struct timespec *rem) {
 	return 0;
 }
 pid_t __wrap_getpid(void) { return active ? 4242 : __real_getpid(); }
+// libevent-internal seam (link-time, no source change): a rate-limit group seeds its member-picking generator from the
+// clock plus the group's heap address; the address is the one input the simulator does not own, so a non-zero seed is
+// re-derived from the virtual clock alone (seed 0 = "use time and pid", both already simulated, is passed through)
+uint32_t __wrap_evutil_weakrand_seed_(void *state, uint32_t seed) {
+	if (active && seed != 0) { seed = (uint32_t)sim::mix64((uint64_t)G.now_ns ^ 0x5eedULL); if (!seed) seed = 1; }
+	return __real_evutil_weakrand_seed_(state, seed);
+}
 
 // ---- epoll
 int __wrap_epoll_create1(int flags) {
@@ -1275,14 +1286,15 @@ int __wrap_accept4(int fd, struct sockaddr *addr, socklen_t *len, int flags) {
 		return r;
 	}
 	ScriptItem it;
-	if (pop_script(e->rscript, it) && it.kind == ScriptItem::ERR) { sim::fault("script.accept.err"); errno = (int)it.v; sim::tr("sys accept fd=%d scripted errno=%d", fd, errno); return -1; }
-	if (unusual(S_ACCEPT_EINTR)) { errno = EINTR; return -1; }
-	if (unusual(S_ACCEPT_EAGAIN)) { errno = EAGAIN; return -1; }
-	if (unusual(S_ACCEPT_ABORTED)) { errno = ECONNABORTED; return -1; }
-	if (unusual(S_ACCEPT_EMFILE)) { errno = EMFILE; return -1; }
+	auto fail = [&](int err) { if (accept_hook) accept_hook(fd, -1, -1, err); errno = err; return -1; };
+	if (pop_script(e->rscript, it) && it.kind == ScriptItem::ERR) { sim::fault("script.accept.err"); sim::tr("sys accept fd=%d scripted errno=%d", fd, (int)it.v); return fail((int)it.v); }
+	if (unusual(S_ACCEPT_EINTR)) return fail(EINTR);
+	if (unusual(S_ACCEPT_EAGAIN)) return fail(EAGAIN);
+	if (unusual(S_ACCEPT_ABORTED)) return fail(ECONNABORTED);
+	if (unusual(S_ACCEPT_EMFILE)) return fail(EMFILE);
 	Sock *l = e->s;
-	if (l->state != ST_LISTEN) { errno = EINVAL; return -1; }
-	if (l->acceptq.empty()) { errno = EAGAIN; return -1; }
+	if (l->state != ST_LISTEN) return fail(EINVAL);
+	if (l->acceptq.empty()) return fail(EAGAIN);
 	Sock *c = l->acceptq.front();
 	l->acceptq.pop_front();
 	int nfd = install_sock(c);
@@ -1293,6 +1305,7 @@ int __wrap_accept4(int fd, struct sockaddr *addr, socklen_t *len, int flags) {
 		*len = c->peerlen;
 	}
 	sim::tr("sys accept fd=%d -> %d", fd, nfd);
+	if (accept_hook) accept_hook(fd, nfd, get_port((sockaddr *)&c->peer), 0);
 	return nfd;
 }
 int __wrap_accept(int fd, struct sockaddr *addr, socklen_t *len) { return __wrap_accept4(fd, addr, len, 0); }
@@ -1463,6 +1476,7 @@ void vk_run_begin(void) {
 	tap_stream = nullptr;
 	tap_dgram = nullptr;
 	io_ledger = nullptr;
+	accept_hook = nullptr;
 	while (!evq.empty()) evq.pop();
 	evseq = 0;
 	next_port = 40000;
@@ -1477,6 +1491,7 @@ void vk_run_end(void) {
 	tap_stream = nullptr;
 	tap_dgram = nullptr;
 	io_ledger = nullptr;
+	accept_hook = nullptr;
 	while (!evq.empty()) evq.pop();
 	// close whatever is still tracked so the next run starts from the same fd set
 	for (int i = 0; i < VK_MAXFD; i++) if (tab[i]) {
